@@ -779,6 +779,7 @@ package redis
 
 //@ func handleHotKey
 //@   prop C01 C14 C19 C02
+//@   loop 0 assume nonnilkeys(keys)
 //@   callpre SetResponse @locally-built-replies-are-one-line oneline(arg1)
 //@   requires u != nil && u.hkc != nil
 //@   consumes req
@@ -1195,3 +1196,78 @@ package redis
 //@   modifies buflen, b.Buffer
 //@   callpre Put @the-buffer-goes-back-empty buflen[b.Buffer] == 0 && arg0 == b.pool
 //@   ensures @handle-cleared b.Buffer == nil
+
+// ---- C08: the processor that is built carries the requested name -------------------------------------------------
+
+//@ func (*builder).Build
+//@   prop C08
+//@   modifies all
+//@   callpre newRedisProc @built-from-the-parameters-as-given arg0 == params.Name && arg1 == params.Cfg && sameslice(arg2, params.Hosts)
+
+//@ func (*redisProc).Name
+//@   prop C08
+//@   requires p != nil
+//@   modifies nothing
+//@   ensures @the-name-it-was-built-with result == p.name
+
+// ---- C08/C13/C14: the processor's configuration object is the one last given ------------------------------------
+
+//@ func newConfig
+//@   prop C08 C13
+//@   modifies nothing
+//@   ensures @wraps-the-given-configuration result != nil && fresh(result) && result.Config == c
+
+//@ func (*config).Update
+//@   prop C08 C13
+//@   requires c != nil
+//@   modifies c.Config
+//@   ensures @the-new-configuration-is-in-force c.Config == cfg
+
+//@ func (*config).Raw
+//@   prop C08
+//@   requires c != nil
+//@   modifies nothing
+//@   ensures @the-configuration-in-force result == c.Config
+
+//@ func (*redisProc).OnSvcConfigUpdate
+//@   prop C08 C13
+//@   requires p != nil && p.cfg != nil
+//@   modifies all
+//@   callpre Update @the-pushed-configuration-is-the-one-applied arg0 == p.cfg && arg1 == newCfg
+
+//@ func (*redisProc).Config
+//@   prop C08
+//@   requires p != nil && p.cfg != nil
+//@   modifies nothing
+//@   ensures @the-configuration-in-force result == p.cfg.Config
+
+// ---- C10: the remaining reply constructors -----------------------------------------------------------------------
+
+//@ func newSimpleBytes
+//@   prop C10 C01
+//@   modifies nothing
+//@   ensures @value result != nil && fresh(result) && result.Type == 43 && result.Text == b
+
+//@ func newNullBulkString
+//@   prop C10
+//@   modifies nothing
+//@   ensures @value result != nil && fresh(result) && result.Type == 36 && isnil(result.Text)
+
+//@ func newByteArray
+//@   prop C10
+//@   modifies nothing
+//@   ensures @one-bulk-string-per-argument result != nil && fresh(result) && result.Type == 42 && len(result.Array) == len(b) && forall k int :: 0 <= k && k < len(b) ==> result.Array[k].Type == 36 && result.Array[k].Text == b[k]
+//@   loop 0 invariant len(arr) == len(b) && fresh(arr) && forall k int :: 0 <= k && k <= rangeindex ==> arr[k].Type == 36 && arr[k].Text == b[k]
+
+// ---- C19: the counting filter counts into the counter it was given and gives it back when destroyed -------------
+
+//@ func newHotKeyFilter
+//@   prop C19
+//@   modifies nothing
+//@   ensures @counts-into-the-given-counter result != nil && fresh(result) && result.counter == counter
+
+//@ func (*hotKeyFilter).Destroy
+//@   prop C19
+//@   requires f != nil
+//@   modifies all
+//@   callpre Free @the-counter-of-this-filter-is-released arg0 == f.counter && f.counter != nil
